@@ -202,8 +202,15 @@ def run_case(spec, inputs=None):
     fail_at = {v: ("head" if rng.random() < 0.3 else "get") for v in failing}
     delays = {v["VersionId"]: float(rng.uniform(0, 0.006)) if rng.random() < 0.7 else 0.0 for v in versions}
     svc = Service(versions, sc["bodies"], sc["page_size"], failing, fail_at, delays)
-    use_handler = spec["i"] % 5 == 0 and sc["start"] is None and sc["end"] is None
-    util = s3mod.S3VersionUtil("bucket", sc["start"], sc["end"], sc["zone"])
+    use_handler = spec["i"] % 5 == 0
+    # the same instants, expressed in an arbitrary zone (the window is a pair of instants, not of wall-clock times)
+    from dateutil import tz as _dtz
+
+    bz = gen.choice(rng, [None, "America/New_York", "Asia/Kolkata", "UTC"])
+    b_start = sc["start"].astimezone(_dtz.gettz(bz)) if (sc["start"] is not None and bz) else sc["start"]
+    b_end = sc["end"].astimezone(_dtz.gettz(bz)) if (sc["end"] is not None and bz) else sc["end"]
+    out["sets"]["bound_zones"] = [str(bz)]
+    util = s3mod.S3VersionUtil("bucket", b_start, b_end, sc["zone"])
     cl = util.s3_client
     cl.list_object_versions = svc.list_object_versions
     cl.head_object = svc.head_object
@@ -234,10 +241,14 @@ def run_case(spec, inputs=None):
             if use_handler:
                 from elexmodel.handlers.data.VersionedData import VersionedDataHandler
 
+                iso = lambda d: None if d is None else d.isoformat()  # noqa: E731  ISO strings with their offset
                 h = VersionedDataHandler("2031-01-01_XX_G", "G", "county", estimands=["margin"], sample=sc["sample"],
-                                         tzinfo=sc["zone"])
-                h.s3_client.manager.shutdown()
-                h.s3_client = util
+                                         tzinfo=sc["zone"], start_date=iso(b_start), end_date=iso(b_end))
+                hc = h.s3_client.s3_client  # the handler's own client (it converted the ISO bounds itself)
+                hc.list_object_versions, hc.head_object, hc.get_object = (svc.list_object_versions, svc.head_object,
+                                                                          svc.get_object)
+                util.manager.shutdown()
+                util = h.s3_client
                 svc_key_ok = True
                 df = h.get_versioned_results()
                 out["counters"]["through_handler"] = 1
